@@ -431,6 +431,10 @@ pub fn process(payload: &Map<String, J>, disclosures: &[String]) -> Result<J, St
             }
             _ => {}
         }
+        if top {
+            // "Remove the claim _sd_alg from the SD-JWT payload" (after all insertions)
+            out.shift_remove("_sd_alg");
+        }
         Ok(J::Object(out))
     }
     fn p_val(v: &J, st: &mut St) -> Result<J, String> {
